@@ -404,7 +404,7 @@ theorem decHeader_encHeader (h : Header) (r : Bytes)
       (le 4 h.dictSize ++ (i64 h.dictOff ++ (le 4 h.infoSize ++ (zeros 4 ++ (i64 h.infoOff ++
       (le 4 h.rank ++ (le 4 h.nbThreads ++ (i64 h.thrOff ++ r))))))))))))
       = some (pad 32 magick, _) := split_append _ _ _ (by decide)
-  have hmg : (pad 32 magick).take 24 = magick ++ [0] := by decide
+  have hmg : (pad 32 magick).take 24 = magick := by decide
   have hbo : unle (le 8 byteOrder) = byteOrder := unle_le8 _ (by decide)
   unfold decHeader encHeader
   simp only [List.append_assoc, split_le, hm, split_fixstr _ _ _ (by decide : 0 < 128), split_i64,
